@@ -1,7 +1,9 @@
 (* The premise of the row-order theorems from the wording of the property: if at every column no two
    candidate pivot metrics tie (any two distinct candidates are comparable by the strict test) and some
    candidate of the column is nonzero, then the pivot search is decided (LuRowOrderProofs.run_decided).
-   [max_of_no_tie]: a finite pairwise-comparable family has a strict maximiser (transitivity only);
+   "Tie" concerns only candidates whose metric is above 0 (zero candidates are never chosen when a nonzero one
+   exists, and tie among themselves in every sparse matrix).
+   [max_of_no_tie]: a finite family whose members above 0 are pairwise comparable has a strict maximiser;
    [cand_nonzero_metric_pos]: a nonzero candidate has a metric above 0 (order premises: its original row is
    not zero, so its row scale is positive);  a nonsingular matrix has a nonzero candidate in every column. *)
 Require Import List Arith Lia Bool Permutation.
@@ -33,9 +35,13 @@ Notation cand_metric := (cand_metric K M nrm2 mulM zeroM).
 Notation col_decided := (col_decided K M nrm2 mulM ltM zeroM).
 Notation run_decided := (run_decided K M nrm2 mulM ltM zeroM scale_of_max).
 
-(* no two candidates of column t tie: the strict test separates any two of them *)
+(* no two candidates of column t tie FOR THE PIVOT: the strict test separates any two candidates whose
+   metric is above 0.  Candidates of metric 0 (zero entries below the diagonal: every sparse, banded or diagonal
+   matrix has several in one column) are never chosen when a candidate above 0 exists, so they may tie among
+   themselves: I_3, diag(50,75,100) and the uncoupled Z / Y matrices of vnaconv_*n satisfy this premise. *)
 Definition col_no_tie (n : nat) (st : lu_state) (t : nat) : Prop :=
   forall i i', t <= i < n -> t <= i' < n -> i <> i' ->
+    ltM zeroM (cand_metric n st t i) = true -> ltM zeroM (cand_metric n st t i') = true ->
     ltM (cand_metric n st t i) (cand_metric n st t i') = true \/
     ltM (cand_metric n st t i') (cand_metric n st t i) = true.
 
@@ -49,39 +55,69 @@ Definition run_cand_nonzero (a : mat) (n : nat) : Prop :=
 Hypothesis ltM_irrefl : forall x, ltM x x = false.
 Hypothesis ltM_trans : forall x y z, ltM x y = true -> ltM y z = true -> ltM x z = true.
 
+Hypothesis ltM_cotrans : forall x y z, ltM x z = true -> ltM x y = false -> ltM y z = true.
+
+Lemma pos_dec (f : nat -> M) t : forall k,
+  (exists i, t <= i < t + k /\ ltM zeroM (f i) = true) \/ (forall i, t <= i < t + k -> ltM zeroM (f i) = false).
+Proof.
+  induction k.
+  - right. intros i Hi. lia.
+  - destruct IHk as [(i & Hi & Hp)|Hn].
+    + left. exists i. split; [lia|exact Hp].
+    + destruct (ltM zeroM (f (t + k)%nat)) eqn:E.
+      * left. exists (t + k)%nat. split; [lia|exact E].
+      * right. intros i Hi. destruct (Nat.eq_dec i (t + k)%nat) as [->|Hne]; [exact E|apply Hn; lia].
+Qed.
+
+(* a finite family whose members above 0 are pairwise comparable, one of them above 0, has a strict maximiser
+   among the members above 0 *)
 Lemma max_of_no_tie (f : nat -> M) t : forall k,
   (forall i i', t <= i < t + S k -> t <= i' < t + S k -> i <> i' ->
+     ltM zeroM (f i) = true -> ltM zeroM (f i') = true ->
      ltM (f i) (f i') = true \/ ltM (f i') (f i) = true) ->
-  exists i0, t <= i0 < t + S k /\ forall i, t <= i < t + S k -> i <> i0 -> ltM (f i) (f i0) = true.
+  (exists i, t <= i < t + S k /\ ltM zeroM (f i) = true) ->
+  exists i0, t <= i0 < t + S k /\ ltM zeroM (f i0) = true /\
+    forall i, t <= i < t + S k -> i <> i0 -> ltM zeroM (f i) = true -> ltM (f i) (f i0) = true.
 Proof.
-  induction k; intros Hnt.
-  - exists t. split; [lia|]. intros i Hi Hne. lia.
-  - destruct IHk as (i0 & Hi0 & Hmax).
+  induction k; intros Hnt (ip & Hip & Hpp).
+  - exists t. assert (ip = t) by lia. subst ip. split; [lia|]. split; [exact Hpp|]. intros i Hi Hne. lia.
+  - assert (Hnt' : forall i i', t <= i < t + S k -> t <= i' < t + S k -> i <> i' ->
+              ltM zeroM (f i) = true -> ltM zeroM (f i') = true ->
+              ltM (f i) (f i') = true \/ ltM (f i') (f i) = true).
     { intros i i' Hi Hi' Hne. apply Hnt; lia. }
-    destruct (Hnt i0 (t + S k)%nat ltac:(lia) ltac:(lia) ltac:(lia)) as [Hlt|Hgt].
-    + exists (t + S k)%nat. split; [lia|]. intros i Hi Hne.
-      destruct (Nat.eq_dec i i0) as [->|Hne0]; [exact Hlt|].
-      apply (ltM_trans _ (f i0)); [apply Hmax; lia|exact Hlt].
-    + exists i0. split; [lia|]. intros i Hi Hne.
-      destruct (Nat.eq_dec i (t + S k)%nat) as [->|Hne1]; [exact Hgt|apply Hmax; lia].
+    destruct (pos_dec f t (S k)) as [Hex|Hnone].
+    + destruct (IHk Hnt' Hex) as (i0 & Hi0 & Hp0 & Hmax).
+      destruct (ltM zeroM (f (t + S k)%nat)) eqn:Ee.
+      * destruct (Hnt i0 (t + S k)%nat ltac:(lia) ltac:(lia) ltac:(lia) Hp0 Ee) as [Hlt|Hgt].
+        -- exists (t + S k)%nat. split; [lia|]. split; [exact Ee|]. intros i Hi Hne Hp.
+           destruct (Nat.eq_dec i i0) as [->|Hne0]; [exact Hlt|].
+           apply (ltM_trans _ (f i0)); [apply Hmax; auto; lia|exact Hlt].
+        -- exists i0. split; [lia|]. split; [exact Hp0|]. intros i Hi Hne Hp.
+           destruct (Nat.eq_dec i (t + S k)%nat) as [->|Hne1]; [exact Hgt|apply Hmax; auto; lia].
+      * exists i0. split; [lia|]. split; [exact Hp0|]. intros i Hi Hne Hp.
+        destruct (Nat.eq_dec i (t + S k)%nat) as [->|Hne1]; [rewrite Ee in Hp; discriminate|apply Hmax; auto; lia].
+    + assert (ip = (t + S k)%nat).
+      { destruct (Nat.eq_dec ip (t + S k)%nat); auto. rewrite (Hnone ip) in Hpp by lia. discriminate. }
+      subst ip. exists (t + S k)%nat. split; [lia|]. split; [exact Hpp|]. intros i Hi Hne Hp.
+      rewrite (Hnone i) in Hp by lia. discriminate.
 Qed.
 
 Lemma decided_of_no_tie n st t : t < n -> col_no_tie n st t ->
   (t = (n - 1)%nat \/ exists i, t <= i < n /\ ltM zeroM (cand_metric n st t i) = true) ->
   col_decided n st t.
 Proof.
-  intros Ht Hnt Hpos.
-  destruct (max_of_no_tie (cand_metric n st t) t (n - t - 1)) as (i0 & Hi0 & Hmax).
-  { intros i i' Hi Hi' Hne. apply Hnt; lia. }
-  exists i0. split; [lia|]. split.
-  - intros i Hi Hne. apply Hmax; lia.
-  - destruct Hpos as [E|(i & Hi & Hp)]; [left; exact E|right].
-    destruct (Nat.eq_dec i i0) as [->|Hne]; [exact Hp|].
-    apply (ltM_trans _ (cand_metric n st t i)); [exact Hp|apply Hmax; lia].
+  intros Ht Hnt [E|Hpos].
+  - exists t. split; [lia|]. split; [intros i Hi Hne; lia|left; exact E].
+  - destruct (max_of_no_tie (cand_metric n st t) t (n - t - 1)) as (i0 & Hi0 & Hp0 & Hmax).
+    { intros i i' Hi Hi' Hne. apply Hnt; lia. }
+    { destruct Hpos as (i & Hi & Hp). exists i. split; [lia|exact Hp]. }
+    exists i0. split; [lia|]. split; [|right; exact Hp0].
+    intros i Hi Hne. destruct (ltM zeroM (cand_metric n st t i)) eqn:Ep.
+    + apply Hmax; auto; lia.
+    + exact (ltM_cotrans _ _ _ Hp0 Ep).
 Qed.
 
 Section Order.
-Hypothesis ltM_cotrans : forall x y z, ltM x z = true -> ltM x y = false -> ltM y z = true.
 Hypothesis mulM_pos : forall x y, ltM zeroM x = true -> ltM zeroM y = true ->
   ltM zeroM (mulM x y) = true.
 Hypothesis mulM_zero_r : forall x, mulM x zeroM = zeroM.
